@@ -99,6 +99,12 @@ def task(W, payload):
                     fail(out, "a flow endpoint is not the compartment of the model at the position it claims", "c12", payload, flow=i, end=str(end), idx=end.idx, program=prog["build"])
     if prog["meta"]["strats"]:
         out["cases"].append(h)
+    # column j of the values handed to the solver is the population of the compartment listed at position j (declared distribution pushed
+    # through the stratifications; prescribed by C06.init_eq_spec)
+    before = len(S.log)
+    S.init_pop(prog["params"])
+    out["evals"] += 1
+    tag_diffs(out, S, before, "c12", payload, prog, ("S6",))
     # run + frames
     rr = S.I.apply({"op": "run", "params": [[k, v] for k, v in prog["params"].items()], "solver": "euler"})
     out["evals"] += 1
